@@ -14,6 +14,8 @@ pub enum Fill {
     /// every texel value = base + pixel index (walks all values of 8/16-bit formats)
     Counter(u32),
     Const(u8),
+    /// random payload in which every other 8x8 tile (resp. 4x4 block) is all zero / all 0xFF
+    Tiles(u64),
     /// ETC1 planes: block k of the texture enumerates a sub-space (see `etc_plane_block`)
     EtcPlane(u8),
 }
@@ -100,6 +102,18 @@ pub fn payload_for(fmt: Fmt, w: usize, h: usize, fill: &Fill) -> Vec<u8> {
             v
         }
         Fill::Const(b) => vec![*b; len],
+        Fill::Tiles(s) => {
+            let mut v = Mix64(*s).bytes(len);
+            let tile = (64 * fmt.bpp() / 8).max(1);
+            for (k, t) in v.chunks_mut(tile).enumerate() {
+                match (k as u64 + *s) % 4 {
+                    1 => t.fill(0),
+                    3 => t.fill(0xFF),
+                    _ => {}
+                }
+            }
+            v
+        }
         Fill::Counter(base) => {
             let bytes = fmt.bpp() / 8;
             let mut v = Vec::with_capacity(len);
@@ -143,8 +157,8 @@ impl Prop for C19 {
     type Case = Case;
     const ID: &'static str = "C19";
     fn rule() -> String {
-        "Formats {RGBA8, RGBA5551, RGB565, RGBA4, LA8, L8, A8, ETC1, ETC1A4} x width, height in {8,16,32,64,128}^2 with a payload of exactly the required size, wrapped in a single-texture CTPK and read with ctpk::read (ETC1/ETC1A4 also through mila::decode). \
-         Payloads: random; exhaustive counters (for the 16-bit formats all 65536 values = four 128x128 textures, for the 8-bit formats all 256); ETC1 planes enumerating every differential (base, delta) pair, every individual 4-bit pair, every table pair x flip at bases near both clamps with all selector values, \
+        "Formats {RGBA8, RGBA5551, RGB565, RGBA4, LA8, L8, A8, ETC1, ETC1A4} x width, height in {8,16,32,64,128}^2 (plus a few 256x256 / 512x128 / 128x512 textures: the statement says 'from 8 up') with a payload of exactly the required size, wrapped in a single-texture CTPK and read with ctpk::read (ETC1/ETC1A4 also through mila::decode). \
+         Payloads: random; constant 0x00 / 0xFF; random with all-zero / all-ones tiles; exhaustive counters (for the 16-bit formats all 65536 values = four 128x128 textures, for the 8-bit formats all 256); ETC1 planes enumerating every differential (base, delta) pair, every individual 4-bit pair, every table pair x flip at bases near both clamps with all selector values, \
          one distinguishing selector per texel position, every alpha nibble at every position, and fully transparent / fully opaque alpha planes over arbitrary colour words. Oracle: per-pixel reference decoders written from the format definitions: pixel (x, y) comes from its Z-order position in its 8x8 tile (4x4 ETC block, 2x2 blocks per tile); ETC1 colours exactly per the Khronos rules for blocks whose differential sums stay in 0..=31 \
          (others: no colour oracle, but no panic and identical output in both builds); every other channel within one quantisation step of the linear expansion of its source bits; alpha 255 where the format has none; A8 colour merely constant; output length 4*w*h, dimensions echoed. \
          GameCube: ColorFormat::RGB5A3.decode over all 65536 values; Tpl::extract_textures on single-image CI8 TPLs with RGB5A3 palettes for sizes 1..=64 x 1..=64 (every width x a few heights and vice versa in the enumerated tier), 8x4 blocks, cropped to the stated size. Both builds, per-case output digests compared between them. \
@@ -164,12 +178,13 @@ impl Prop for C19 {
         true
     }
     fn random_cases(tier: Tier) -> u64 {
-        tier.pick(4_000, 3_000_000)
+        tier.pick(20_000, 3_000_000)
     }
     fn strategy(_tier: Tier) -> BoxedStrategy<Case> {
         prop_oneof![
             8 => (0u8..9, prop_oneof![4 => 3u8..=5, 1 => 6u8..=7], prop_oneof![4 => 3u8..=5, 1 => 6u8..=7], any::<u64>()).prop_map(|(fmt, wlog, hlog, s)| Case::Tex { fmt, wlog, hlog, fill: Fill::Random(s) }),
-            1 => (0u8..9, 3u8..=5, 3u8..=5, any::<u8>()).prop_map(|(fmt, wlog, hlog, b)| Case::Tex { fmt, wlog, hlog, fill: Fill::Const(b) }),
+            1 => (0u8..9, 3u8..=5, 3u8..=5, prop_oneof![Just(0u8), Just(0xFF), any::<u8>()]).prop_map(|(fmt, wlog, hlog, b)| Case::Tex { fmt, wlog, hlog, fill: Fill::Const(b) }),
+            2 => (0u8..9, 3u8..=6, 3u8..=6, any::<u64>()).prop_map(|(fmt, wlog, hlog, s)| Case::Tex { fmt, wlog, hlog, fill: Fill::Tiles(s) }),
             3 => (1u8..=64, 1u8..=64, any::<u64>(), prop_oneof![Just(256u16), 1u16..=256]).prop_map(|(w, h, seed, palette_len)| Case::Tpl { w, h, seed, palette_len }),
         ]
         .boxed()
@@ -205,6 +220,17 @@ impl Prop for C19 {
                 }
             }
         }
+        // constant payloads and payloads with all-zero / all-ones tiles, every format
+        for fmt in 0u8..9 {
+            for fill in [Fill::Const(0), Fill::Const(0xFF), Fill::Tiles(fmt as u64), Fill::Tiles(fmt as u64 + 1)] {
+                cases.push(Case::Tex { fmt, wlog: 4, hlog: 3, fill: fill.clone() });
+                cases.push(Case::Tex { fmt, wlog: 3, hlog: 5, fill });
+            }
+        }
+        // power-of-two sides beyond 128 (65 536 pixels and more)
+        for (fmt, wlog, hlog) in [(5u8, 8u8, 8u8), (5, 9, 7), (1, 8, 8), (7, 8, 8), (0, 7, 9)] {
+            cases.push(Case::Tex { fmt, wlog, hlog, fill: Fill::Random(0x256 + fmt as u64) });
+        }
         for chunk in 0..16u8 {
             cases.push(Case::Rgb5a3 { chunk });
         }
@@ -231,9 +257,9 @@ impl Prop for C19 {
         match case {
             Case::Tex { fmt, wlog, hlog, fill } => {
                 let fmt = FORMATS[*fmt as usize % 9];
-                let (w, h) = (1usize << (*wlog).clamp(3, 7), 1usize << (*hlog).clamp(3, 7));
+                let (w, h) = (1usize << (*wlog).clamp(3, 9), 1usize << (*hlog).clamp(3, 9));
                 let payload = payload_for(fmt, w, h, fill);
-                let tex = Tex { name: "tex".into(), w, h, fmt, payload: payload.clone() };
+                let tex = Tex { name: "tex".into(), w, h, fmt, payload: payload.clone(), mip_tail: Vec::new() };
                 let file = build_ctpk(&[tex], 0, &|s| sjis_encode(s).unwrap_or_default());
                 let out = match cx.call(|| ctpk::read(&file.bytes)) {
                     Some(Ok(t)) => t,
